@@ -1,12 +1,15 @@
 #!/bin/sh
-# tools/try_seeded.sh <seeded-id> <property> [run args...]: apply a seeded change to /repo, run the check, revert.
+# tools/try_seeded.sh <seeded-id> <property> [run args...]: apply a seeded change to a scratch worktree of /repo
+# (under /tmp, removed afterwards), run the check against it via VF_REPO, report.  /repo itself is not touched.
 id="$1"; prop="$2"; shift 2
 cd /verif
-if ! git -C /repo diff --quiet; then echo "/repo has uncommitted changes"; exit 9; fi
-git -C /repo apply "/verif/seeded/$id/patch.diff" || exit 9
-./run check "$prop" --tier "${TIER:-quick}" "$@" > "/verif/.work/seeded-$id.log" 2>&1
+wt="/tmp/vfseed-$id-$$"
+git -C /repo worktree remove --force "$wt" >/dev/null 2>&1
+git -C /repo worktree add -q --detach "$wt" HEAD || exit 9
+git -C "$wt" apply "/verif/seeded/$id/patch.diff" || { git -C /repo worktree remove --force "$wt"; exit 9; }
+VF_REPO="$wt" ./run check "$prop" --tier "${TIER:-quick}" "$@" > "/verif/.work/seeded-$id.log" 2>&1
 rc=$?
-git -C /repo checkout -- .
+git -C /repo worktree remove --force "$wt"
 echo "seeded $id on $prop: exit $rc"
 grep -E "^VIOLATION|REFUTED|PROBLEM" "/verif/.work/seeded-$id.log" | head -8
 exit $rc
